@@ -92,6 +92,7 @@ Consume ==
        \/ e.op \in {"enable", "disable"} /\ Toggle(e.op, e.i, ToSet(e.names), e.ign)
        \/ e.op = "chain_toggle" /\ ChainToggle(e.kind, e.i, e.chain, ToSet(e.names))
        \/ e.op = "setopt" /\ SetOpt(e.i, e.route, <<e.k, e.v>>)
+       \/ e.op = "share_opts" /\ ShareOpts(e.i, e.j)
        \/ e.op = "add_render_rule" /\ AddRenderRule(e.i, e.name)
        \/ e.op = "enter_reset" /\ EnterReset(e.i)
        \/ e.op = "exit_reset" /\ ExitReset(e.i, e.how)
